@@ -129,7 +129,7 @@ Proof. unfold pad_adj, pad_fwd. rewrite skipn_app, zeros_length, Nat.sub_diag.
   rewrite firstn_app, Nat.sub_diag, firstn_all. simpl. apply app_nil_r. Qed.
 
 (* ------------------------------------------------------------------ *)
-(* Restriction (restriction.py): np.take(x, iava) / put_along_axis into zeros *)
+(* Restriction (restriction.py): np.take(x, iava) / np.add.at into zeros      *)
 (* ------------------------------------------------------------------ *)
 Definition restr_fwd (iava : list nat) (x : vec) : vec := map (fun j => nth j x 0r) iava.
 Definition restr_spec (iava : list nat) (i : nat) (x : vec) : R := nth (nth i iava (length x)) x 0r.
@@ -151,14 +151,17 @@ Fixpoint scatter_add (n : nat) (iava : list nat) (y : vec) : vec :=
   | j :: iava', b :: y' => addat j b (scatter_add n iava' y')
   | _, _ => zeros R n
   end.
-(* what the code does: y = zeros(n); put_along_axis(y, iava, x): assignments
-   in index order, so the LAST occurrence of a repeated index wins *)
+(* what the code does (since fix 1a499ab): y = zeros(n); np.add.at(y, iava, x),
+   i.e. every sample is ACCUMULATED at its index *)
+Definition restr_adj (n : nat) (iava : list nat) (y : vec) : vec := scatter_add n iava y.
+(* Legacy (before 1a499ab): put_along_axis(y, iava, x) = assignments in index
+   order, so the LAST occurrence of a repeated index won *)
 Fixpoint put (iava : list nat) (y : vec) (v : vec) : vec :=
   match iava, y with
   | j :: iava', b :: y' => put iava' y' (setat j b v)
   | _, _ => v
   end.
-Definition restr_adj (n : nat) (iava : list nat) (y : vec) : vec := put iava y (zeros R n).
+Definition restr_adj_legacy (n : nat) (iava : list nat) (y : vec) : vec := put iava y (zeros R n).
 
 Lemma restr_fwd_length iava x : length (restr_fwd iava x) = length iava.
 Proof. apply map_length. Qed.
@@ -204,14 +207,17 @@ Lemma setat_addat_zero j b v : nth j v 0r = 0r -> setat j b v = addat j b v.
 Proof. revert j; induction v as [|a v IH]; intros [|j] H; simpl in *; auto.
   - subst a. f_equal. ring.
   - rewrite IH; auto. Qed.
-(* the code's adjoint IS the scatter-add when no index is repeated *)
-Lemma restr_adj_scatter_add n iava y : NoDup iava -> restr_adj n iava y = scatter_add n iava y.
-Proof. unfold restr_adj. revert y; induction iava as [|j iava IH]; intros [|b y] H; simpl; auto.
+(* Legacy: the assigning adjoint coincided with the scatter-add only when no index was repeated *)
+Lemma restr_adj_legacy_scatter_add n iava y : NoDup iava -> restr_adj_legacy n iava y = restr_adj n iava y.
+Proof. unfold restr_adj_legacy, restr_adj. revert y; induction iava as [|j iava IH]; intros [|b y] H; simpl; auto.
   inversion H; subst. rewrite put_setat_comm by auto. rewrite IH by auto.
   apply setat_addat_zero. rewrite <- IH by auto. rewrite nth_put_notin by auto. apply nth_zeros. Qed.
-Theorem restr_adjoint iava x y : NoDup iava -> length y = length iava ->
+(* the coded pair is adjoint for EVERY index list (repeated indices included) *)
+Theorem restr_adjoint iava x y : length y = length iava ->
   dotu R (restr_fwd iava x) y = dotu R x (restr_adj (length x) iava y).
-Proof. intros; rewrite restr_adj_scatter_add by auto. apply restr_scatter_add_adjoint; auto. Qed.
+Proof. apply restr_scatter_add_adjoint. Qed.
+Lemma restr_adj_length n iava y : length (restr_adj n iava y) = n.
+Proof. apply scatter_add_length. Qed.
 Theorem restr_linear iava : Linear (restr_fwd iava).
 Proof. intros a b x y H. unfold restr_fwd.
   apply nth_ext with (d := 0r) (d' := 0r).
@@ -487,9 +493,9 @@ Proof. intros H. apply dot_adjoint_of_dotu with (f := roll_fwd S s) (g := roll_a
 Lemma vconj_restr iava x : vconj S (restr_fwd S iava x) = restr_fwd S iava (vconj S x).
 Proof. unfold restr_fwd, vconj. rewrite map_map. apply map_ext. intros j.
   rewrite <- (conj_zero S) at 2. symmetry. apply map_nth. Qed.
-Theorem restr_adjoint_c iava x y : NoDup iava -> length y = length iava ->
+Theorem restr_adjoint_c iava x y : length y = length iava ->
   dot S (restr_fwd S iava x) y = dot S x (restr_adj S (length x) iava y).
-Proof. intros H1 H2. apply dot_adjoint_of_dotu with (f := restr_fwd S iava) (g := restr_adj S (length x) iava).
+Proof. intros H2. apply dot_adjoint_of_dotu with (f := restr_fwd S iava) (g := restr_adj S (length x) iava).
   - apply vconj_restr.
   - rewrite <- (vconj_length S x). apply restr_adjoint; auto. Qed.
 Lemma vconj_symm x : vconj S (symm_fwd S x) = symm_fwd S (vconj S x).
